@@ -28,8 +28,8 @@ CONSTANTS
   PKinds <- KCmtCpp
   MaxEdits = 5
   NCmtCls = 8
-  NCppForms = 18
-  NGarb = 5
+  NCppForms = 27
+  NGarb = 7
   DirectiveCls <- DirCls
 INVARIANT WellNested
 INVARIANT GrammarInNest
